@@ -390,10 +390,14 @@ def once_stage(w, tier, seed, ev):
         ev.cov["schedules_forced"] += len(legal)
         ev.cov.setdefault("adversarial_schedules", 0)
         ev.cov["adversarial_schedules"] += len(adv)
-        rc = generic_trace_validate(w, "C11", "OnceTrace.tla", ["StepsLegal", "RunOK", "AtMostOnce", "SameResult", "MutualExclusion"],
+        # verdict: what the run itself counted (executions of the body, value every call received) whatever schedule it followed;
+        # drift: whether the observed steps are steps of the locked protocol and adversarial schedules were infeasible
+        rc = generic_trace_validate(w, "C11", "OnceTrace.tla", ["RunOK"],
                                     consts, out, ev, lambda x: x.startswith('{"ev":"start"'), "once-trace-G%d-U%d" % (g, uses))
         if rc:
             break
+        drift_check(w, "C11", "OnceTrace.tla", ["StepsLegal", "ProtocolOK", "AtMostOnce", "SameResult", "MutualExclusion"], consts, out, ev,
+                    "once-trace-G%d-U%d" % (g, uses))
     return rc
 
 
@@ -459,6 +463,23 @@ def run_resolver(prop, tier, seed, keep=False):
 
 
 # --------------------------------------------------------------------------- graph layer (C18, C19, C20)
+
+
+def drift_check(w, prop, module, invariants, constants, trace_file, ev, label):
+    """Conformance of the recorded steps with the algorithm / protocol model.  A mismatch means the code no
+    longer follows the model (model drift); it is recorded in the evidence and is never a verdict - the
+    property itself is judged separately on what the code returned."""
+    cfg = write_cfg(w, "D_%s_%s.cfg" % (prop, label), "TSpec" if module == "OnceTrace.tla" else "Spec", invariants,
+                    constants=dict(constants, TraceFile='"%s"' % trace_file))
+    res = w.tlc(module, cfg, workers=1, timeout=3000)
+    ev.add_tlc(label + "-model-conformance", res, "trace_validation")
+    ev.cov.setdefault("model_drift", {})
+    if res["violated"]:
+        line, _ = vlib.last_alias_state(res["out"])
+        ev.cov["model_drift"][label] = {"invariant": res["violated"][0], "trace_line": line}
+        log("model drift (%s): %s at line %s - not a verdict" % (label, res["violated"][0], line))
+    elif not res["ok"]:
+        ev.cov["model_drift"][label] = {"invariant": "conformance run did not complete"}
 
 
 def generic_trace_validate(w, prop, module, invariants, constants, trace_file, ev, is_start, label):
@@ -556,11 +577,18 @@ def run_c19(tier, seed, keep=False):
         log(r.stderr.strip())
         r = w.run_drive(["graph-hist", "-n", str(100 if q else 1500), "-len", "60", "-keys", "4", "-handles", "4", "-seed", str(seed + 7), "-out", "g_rand4.ndjson"])
         isstart = lambda x: x.startswith('{"op":"reset"')
-        inv = ["Conforms", "Applicable", "ApiMirror", "Mirror", "EdgesAmongPresent", "DomAgree", "ReverseTwice"]
-        rc = generic_trace_validate(w, "C19", "GraphTrace.tla", inv, gconst, "g_tlc.ndjson", ev, isstart, "tlc-generated-histories")
-        rc = rc or generic_trace_validate(w, "C19", "GraphTrace.tla", inv, gconst, "g_rand.ndjson", ev, isstart, "random-histories")
-        rc = rc or generic_trace_validate(w, "C19", "GraphTrace.tla", inv, dict(gconst, Keys='{"a","b","c","d"}', MaxHandles="4"),
-                                          "g_rand4.ndjson", ev, isstart, "random-histories-4keys")
+        # verdict: vertices, successors/predecessors with weights, mirror, applicability - what the property talks about;
+        # drift: the row structure of the internal maps, the invariants of the specification state
+        inv = ["Conforms", "Applicable", "ApiMirror"]
+        dinv = ["RowsConform", "Mirror", "EdgesAmongPresent", "DomAgree", "ReverseTwice"]
+        g4 = dict(gconst, Keys='{"a","b","c","d"}', MaxHandles="4")
+        rc = 0
+        for f, c, lab in (("g_tlc.ndjson", gconst, "tlc-generated-histories"), ("g_rand.ndjson", gconst, "random-histories"),
+                          ("g_rand4.ndjson", g4, "random-histories-4keys")):
+            rc = generic_trace_validate(w, "C19", "GraphTrace.tla", inv, c, f, ev, isstart, lab)
+            if rc:
+                break
+            drift_check(w, "C19", "GraphTrace.tla", dinv, c, f, ev, lab)
         ev.cov["exhaustive"] = True
         ev.cov["distinct_nontrivial"] = len(hists)
         ev.cov["rule"] = ("exhaustive TLC exploration of all operation histories up to the bound; TLC-simulated histories (%d) replayed on real "
@@ -584,7 +612,8 @@ def run_c18(tier, seed, keep=False):
         jobs = [(3, ["-mode", "all", "-weights", "1", "-reps", "2" if q else "6"], "all-digraphs-3"),
                 (3, ["-mode", "random", "-count", "1500" if q else "20000", "-maxw", "2", "-density", "0.5", "-reps", "2"], "random-3"),
                 (5, ["-mode", "random", "-count", "1200" if q else "12000", "-reps", "2"], "random-5"),
-                (7, ["-mode", "random", "-count", "600" if q else "6000", "-reps", "2", "-density", "0.3"], "random-7")]
+                (7, ["-mode", "random", "-count", "600" if q else "6000", "-reps", "2", "-density", "0.3"], "random-7"),
+                (5, ["-mode", "random", "-count", "600" if q else "6000", "-reps", "1", "-density", "0.4", "-maxw", "30000"], "random-5-large-weights")]
         if not q:
             jobs.append((3, ["-mode", "all", "-weights", "0,2", "-reps", "1"], "all-digraphs-3-w02"))
             jobs.append((9, ["-mode", "random", "-count", "2000", "-reps", "2", "-density", "0.25", "-maxw", "6"], "random-9"))
@@ -592,10 +621,12 @@ def run_c18(tier, seed, keep=False):
             out = "d_%s.ndjson" % label
             r = w.run_drive(["dijkstra", "-n", str(n), "-seed", str(seed), "-out", out] + args)
             log(r.stderr.strip())
-            rc = rc or generic_trace_validate(w, "C18", "DijkstraTrace.tla", ["PopsLegal", "ResultIsSpecState", "C18"],
+            # verdict: the declarative statement of C18 on the returned maps and paths; drift: pops / final state vs the model
+            rc = rc or generic_trace_validate(w, "C18", "DijkstraTrace.tla", ["C18"],
                                               {"N": str(n), "WSet": "{0}"}, out, ev, lambda x: x.startswith('{"ev":"graph"'), label)
             if rc:
                 break
+            drift_check(w, "C18", "DijkstraTrace.tla", ["PopsLegal", "ResultIsSpecState"], {"N": str(n), "WSet": "{0}"}, out, ev, label)
         ev.cov["exhaustive"] = True
         ev.cov["distinct_nontrivial"] = ev.cov["traces_validated_against_impl"]
         ev.cov["rule"] = ("model: every digraph on 3 vertices (self-loops included) over the weight set, every source, every tie-break; "
